@@ -73,6 +73,59 @@ def h_step(cx, kind, noise):
     cx.check("power=rate*V/1000", eq(power * 1000, rate * V))
 
 
+def h_two_steps(cx, kind, concrete=None):
+    """two pilots applied one after another to the SAME battery object (whatever the first call leaves behind in the object,
+    beyond the charge itself, must not break the bounds of the second call); the first pilot is large, the second arbitrary"""
+    env.install(cx)
+    env.install_noise(cx)
+    if concrete is None:
+        b, cap, charge, maxp = make_battery(cx, kind, False)
+        V = cx.real("voltage", lo=0, lo_open=True)
+        T = cx.real("period", lo=0, lo_open=True)
+    else:
+        # continuous two-stage law: two symbolic exp terms in one query (products of the two) are beyond the exp abstraction, so the
+        # FIRST call is concrete (a menu of states before / across / beyond the transition, pilots at and below the maximum) and
+        # the second pilot is symbolic: whatever the first call leaves in the object is there when the second call is judged
+        import acnportal.acnsim.models.battery as B0
+
+        cap, V, T, ts0, maxp, charge = concrete[:6]
+        b = B0.Linear2StageBattery(cap, charge, maxp, noise_level=0, transition_soc=ts0, charge_calculation="stepwise" if kind == "stepwise" else "continuous")
+    p1 = cx.real("pilot1", lo=0) if concrete is None else concrete[6]
+    p2 = cx.real("pilot2", lo=0)
+    # the second call has its own period length (and, symbolic jobs, its own voltage)
+    if concrete is None:
+        T1, V1 = T, V
+        T = cx.real("period2", lo=0, lo_open=True)
+        V = cx.real("voltage2", lo=0, lo_open=True)
+    else:
+        T1, V1 = T, V
+        T = concrete[7] if len(concrete) > 7 else T
+    b.charge(p1, V1, T1)
+    c1 = b._to_dict()[0]["_current_charge"]
+    rate = b.charge(p2, V, T)
+    c2 = b._to_dict()[0]["_current_charge"]
+    cx.tag("charged")
+    cx.observe("rate", rate)
+    # with a concrete first call the state is a rounded double (soc = charge/capacity and charge = soc*capacity are not exact
+    # inverses): a 1e-9 relative band where the two meet (section 3 of DESIGN.md); none when everything is symbolic
+    band = 0 if concrete is None else 1e-9
+    cx.check("second:rate>=0", ge(rate, -band * 100))
+    cx.check("second:rate<=pilot", le(rate, p2 * (1 + band) + band))
+    cx.check("second:power<=max_power", le(b.current_charging_power, maxp * (1 + band)))
+    cx.check("second:charge_nondecreasing", ge(c2, c1 - band * cap))
+    cx.check("second:charge<=capacity", le(c2, cap * (1 + band)))
+    # the second call behaves like the same call on a fresh battery in that state
+    import acnportal.acnsim.models.battery as B
+
+    d = b._to_dict()[0]
+    if kind == "ideal":
+        f = B.Battery(cap, c1, maxp)
+    else:
+        f = B.Linear2StageBattery(cap, c1, maxp, noise_level=0, transition_soc=d["_transition_soc"], charge_calculation="stepwise" if kind == "stepwise" else "continuous")
+    rf = f.charge(p2, V, T)
+    cx.check("second:same_as_fresh_battery_in_that_state", and_(le(rate - rf, band * 100), le(rf - rate, band * 100)))
+
+
 def h_ev_evse(cx, kind, evse_kind="inf"):
     """through EVSE.set_pilot -> EV.charge: the EV reports the battery's rate; bounds carry over.  evse_kind != "inf": a bounded /
     deadband / finite-rate EVSE and ANY non-negative pilot it accepts (in particular pilots inside the 1e-3 A acceptance band
@@ -145,6 +198,18 @@ def jobs(tier):
                           bounds=dict(step="one charge() from an arbitrary valid state; all 6-8 parameters symbolic reals", unbounded_history="by induction on the state invariant 0<=charge<=capacity"),
                           approx=(kind == "continuous"), cost=3 if kind == "continuous" else 1))
         js.append(Job("ev_evse[%s]" % kind, h_ev_evse, dict(kind=kind), functions=FUNCS, expect_tags=("charged",), approx=(kind == "continuous")))
+        # (capacity kWh, V, period min, transition SoC, max power kW, charge before the first call kWh, first pilot A)
+        # periods of 15 / 30 / 60 min: period/60 and 60/period are both exact binary numbers (with 5 min the code's two constants
+        # 60/5 and 5/60 are not exact inverses, and "rate <= pilot" holds only up to that rounding)
+        menu = [(100, 240, 15, 0.75, 7.5, 50, 32), (100, 240, 15, 0.75, 7.5, 74, 32), (100, 240, 15, 0.75, 7.5, 85, 32), (100, 240, 15, 0.75, 7.5, 74.5, 12), (8, 208, 60, 0.5, 3.25, 3.5, 16), (8, 208, 60, 0.5, 3.25, 7.75, 40)]
+        menu += [(100, 240, 15, 0.75, 7.5, 74, 32, 60), (100, 240, 60, 0.75, 7.5, 70, 32, 15)]  # second call with another period length
+        if tier != "quick":
+            menu += [(c, v, t, ts_, mp, ch, p) for (c, v, t, ts_, mp) in ((100, 240, 15, 0.75, 7.5), (24, 120, 30, 0.25, 1.5), (64, 208, 60, 0.875, 11)) for ch in (0.125 * c, ts_ * c - 0.0625, ts_ * c + 0.25, 0.96875 * c) for p in (6, 32, 80)]
+        for conc in ([None] if kind != "continuous" else menu):
+            js.append(Job("two_steps[%s%s]" % (kind, "" if conc is None else ",cap=%s,V=%s,T=%s,ts=%s,maxP=%s,charge=%s,p1=%s" % conc[:7] + (",T2=%s" % conc[7] if len(conc) > 7 else "")), h_two_steps, dict(kind=kind, concrete=conc), functions=FUNCS, expect_tags=("charged",),
+                          approx=(kind == "continuous"), timeout=1500,
+                          bounds=dict(sequence="charge(p1, V1, T1); charge(p2, V2, T2) on one battery object; second call compared with a fresh battery in the same state",
+                                      parameters="all symbolic" if conc is None else "first call concrete %s (cap, V, T, transition SoC, max power, charge, first pilot); second pilot symbolic" % (conc,)), cost=4))
         for ek in (("EVSE", "DEADBAND", "CC", "AV5") if kind == "ideal" else ("CC",)):
             js.append(Job("ev_evse[%s,%s]" % (kind, ek), h_ev_evse, dict(kind=kind, evse_kind=ek), functions=FUNCS + ["acnportal.acnsim.models.evse.DeadbandEVSE/FiniteRatesEVSE.set_pilot/_valid_rate"],
                           expect_tags=("charged", "rejected"), approx=(kind == "continuous"),
